@@ -110,11 +110,16 @@ Proof.
   intros id c E. exists c. split; [exact E|apply same_meta_refl].
 Qed.
 
+Lemma meta_kept_next_up s s' : s_cells s' = s_cells s -> (s_next s <= s_next s')%N -> meta_kept s s'.
+Proof.
+  intros Hc Hn Hb. unfold cells_below in *. rewrite Hc. split; [intros id c0 E; specialize (Hb id c0 E); lia|]. split; [exact Hn|].
+  intros id c E. exists c. split; [exact E|apply same_meta_refl].
+Qed.
+
 Theorem run_block_keeps_cell_identity ped repl lim fuel bl c s : meta_kept s (snd (run_block ped repl lim fuel bl c s)).
 Proof.
-  apply (Pr_run_block meta_kept meta_kept_refl meta_kept_trans); try (intros; apply meta_kept_other; reflexivity).
-  - (* fresh alone *) intros s0 Hb. unfold cells_below in *. split; [intros id c0 E; cbn [s_next set_next s_cells] in *; specialize (Hb id c0 E); lia|]. split; [cbn [s_next set_next]; lia|].
-    intros id c0 E. exists c0. split; [exact E|apply same_meta_refl].
+  apply (Pr_run_block meta_kept meta_kept_refl meta_kept_trans); try (intros; apply meta_kept_other; reflexivity);
+    try (intros; apply meta_kept_next_up; [reflexivity|cbn [s_next set_next set_arrs set_ctxs]; lia]).
   - (* allocation under the identifier just taken *)
     intros c0 s0 Hb. unfold cells_below in *. cbn [s_cells s_next set_cells set_next]. split; [|split; [lia|]].
     + intros id x E. destruct (N.eq_dec (s_next s0) id) as [<-|Hne]; [lia|].
